@@ -33,6 +33,7 @@
 
 #include "tsgGridWavelet.hpp"
 #include "tsgTPLWrappers.hpp"
+#include "tsgVerifHooks.hpp"
 
 namespace TasGrid{
 
@@ -130,8 +131,15 @@ void GridWavelet::getQuadratureWeights(double weights[]) const{
     for(int i=0; i<num_points; i++){
         weights[i] = evalIntegral(work.getIndex(i));
     }
+    TSG_VERIF_SCHED("wcache:before_check");
+    TSG_VERIF_EVENT("wcache_check", {0, 1, (inter_matrix.getNumRows() != num_points) ? 0 : 1});
+    TSG_VERIF_SCHED("wcache:after_check");
     if (inter_matrix.getNumRows() != num_points) buildInterpolationMatrix();
+    TSG_VERIF_SCHED("wcache:before_use");
+    TSG_VERIF_EVENT("wcache_use_begin", {0, 1});
+    TSG_VERIF_SCHED("wcache:in_use");
     inter_matrix.invertTransposed(acceleration, weights);
+    TSG_VERIF_EVENT("wcache_use_end", {0, 1});
 }
 void GridWavelet::getInterpolationWeights(const double x[], double weights[]) const{
     const MultiIndexSet &work = (points.empty()) ? needed : points;
@@ -140,8 +148,15 @@ void GridWavelet::getInterpolationWeights(const double x[], double weights[]) co
     for(int i=0; i<num_points; i++){
         weights[i] = evalBasis(work.getIndex(i), x);
     }
+    TSG_VERIF_SCHED("wcache:before_check");
+    TSG_VERIF_EVENT("wcache_check", {0, 2, (inter_matrix.getNumRows() != num_points) ? 0 : 1});
+    TSG_VERIF_SCHED("wcache:after_check");
     if (inter_matrix.getNumRows() != num_points) buildInterpolationMatrix();
+    TSG_VERIF_SCHED("wcache:before_use");
+    TSG_VERIF_EVENT("wcache_use_begin", {0, 2});
+    TSG_VERIF_SCHED("wcache:in_use");
     inter_matrix.invertTransposed(acceleration, weights);
+    TSG_VERIF_EVENT("wcache_use_end", {0, 2});
 }
 void GridWavelet::getDifferentiationWeights(const double x[], double weights[]) const {
     const MultiIndexSet &work = (points.empty()) ? needed : points;
@@ -150,7 +165,13 @@ void GridWavelet::getDifferentiationWeights(const double x[], double weights[]) 
     for (int i=0; i<num_points; i++) {
         evalDiffBasis(work.getIndex(i), x, &(weights[i * num_dimensions]));
     }
+    TSG_VERIF_SCHED("wcache:before_check");
+    TSG_VERIF_EVENT("wcache_check", {0, 3, (inter_matrix.getNumRows() != num_points) ? 0 : 1});
+    TSG_VERIF_SCHED("wcache:after_check");
     if (inter_matrix.getNumRows() != num_points) buildInterpolationMatrix();
+    TSG_VERIF_SCHED("wcache:before_use");
+    TSG_VERIF_EVENT("wcache_use_begin", {0, 3});
+    TSG_VERIF_SCHED("wcache:in_use");
     // Solve the linear wavelet system for each direction/partial derivative and re-index.
     std::vector<double> local_weights(num_points);
     for (int d=0; d<num_dimensions; d++) {
@@ -160,6 +181,7 @@ void GridWavelet::getDifferentiationWeights(const double x[], double weights[]) 
         for (int i=0; i<num_points; i++)
             weights[i * num_dimensions + d] = local_weights[i];
     }
+    TSG_VERIF_EVENT("wcache_use_end", {0, 3});
 }
 
 void GridWavelet::loadNeededValues(const double *vals){
@@ -176,6 +198,7 @@ void GridWavelet::loadNeededValues(const double *vals){
         values.addValues(points, needed, vals);
         points += needed;
         needed = MultiIndexSet();
+        TSG_VERIF_EVENT("wcache_invalidate", {0, 5}); // the number of points has changed
     }
     recomputeCoefficients();
 }
@@ -189,6 +212,7 @@ void GridWavelet::mergeRefinement(){
         points = std::move(needed);
     }else{
         points += needed;
+        TSG_VERIF_EVENT("wcache_invalidate", {0, 6}); // the number of points has changed
     }
     needed = MultiIndexSet();
     coefficients = Data2D<double>(num_outputs, num_all_points);
@@ -392,6 +416,8 @@ void GridWavelet::buildInterpolationMatrix() const{
     MultiIndexSet const &work = (points.empty()) ? needed : points;
 
     int num_points = work.getNumIndexes();
+    TSG_VERIF_EVENT("wcache_build_begin", {0});
+    TSG_VERIF_SCHED("wcache:in_build");
 
     if (order == 1 and TasSparse::WaveletBasisMatrix::useDense(acceleration, num_points)
                    and acceleration->useKernels()){ // using the GPU algorithm
@@ -402,6 +428,7 @@ void GridWavelet::buildInterpolationMatrix() const{
         GpuVector<double> gpu_basis(acceleration, num_points, num_points);
         evaluateHierarchicalFunctionsGPU(gpu_pnts.data(), num_points, gpu_basis.data());
         inter_matrix = TasSparse::WaveletBasisMatrix(acceleration, num_points, std::move(gpu_basis));
+        TSG_VERIF_EVENT("wcache_build_end", {0});
         return;
     }
 
@@ -439,7 +466,9 @@ void GridWavelet::buildInterpolationMatrix() const{
         }
     }
 
+    TSG_VERIF_SCHED("wcache:in_build");
     inter_matrix = TasSparse::WaveletBasisMatrix(acceleration, pntr, indx, vals);
+    TSG_VERIF_EVENT("wcache_build_end", {0});
 }
 
 void GridWavelet::recomputeCoefficients(){
@@ -449,12 +478,18 @@ void GridWavelet::recomputeCoefficients(){
     int num_points = points.getNumIndexes();
     coefficients = Data2D<double>(num_outputs, num_points, std::vector<double>(values.begin(), values.end()));
 
+    TSG_VERIF_EVENT("wcache_check", {0, 4, (inter_matrix.getNumRows() != num_points) ? 0 : 1});
     if (inter_matrix.getNumRows() != num_points) buildInterpolationMatrix();
 
+    TSG_VERIF_EVENT("wcache_use_begin", {0, 4});
     inter_matrix.invert(acceleration, num_outputs, coefficients.data());
+    TSG_VERIF_EVENT("wcache_use_end", {0, 4});
 
     // do not keep the matrix if working with internal interpolation, don't want to hog GPU RAM
     if (num_outputs > 0) inter_matrix = TasSparse::WaveletBasisMatrix();
+    #ifdef TASMANIAN_VERIF_HOOKS
+    if (num_outputs > 0) TSG_VERIF_EVENT("wcache_invalidate", {0, 4});
+    #endif
 }
 
 std::vector<double> GridWavelet::getNormalization() const{
@@ -866,6 +901,7 @@ void GridWavelet::loadConstructedPoint(const double x[], int numx, const double 
         values.addValues(points, new_points, vals.data());
         points += new_points;
     }
+    TSG_VERIF_EVENT("wcache_invalidate", {0, 7}); // the number of points has changed
     recomputeCoefficients(); // costly, but the only option under the circumstances
 }
 void GridWavelet::finishConstruction(){ dynamic_values.reset(); }
@@ -1043,11 +1079,17 @@ void GridWavelet::updateAccelerationData(AccelerationContext::ChangeType change)
             gpu_cachef.reset();
             if (inter_matrix.getNumRows() > 0)
                 inter_matrix = TasSparse::WaveletBasisMatrix();
+            #ifdef TASMANIAN_VERIF_HOOKS
+            if (inter_matrix.getNumRows() == 0) TSG_VERIF_EVENT("wcache_invalidate", {0, 8});
+            #endif
             break;
         case AccelerationContext::change_sparse_dense:
             if ((acceleration->algorithm_select == AccelerationContext::algorithm_dense and inter_matrix.isSparse())
                 or (acceleration->algorithm_select == AccelerationContext::algorithm_sparse and inter_matrix.isDense()))
                 inter_matrix = TasSparse::WaveletBasisMatrix();
+            #ifdef TASMANIAN_VERIF_HOOKS
+            if (inter_matrix.getNumRows() == 0) TSG_VERIF_EVENT("wcache_invalidate", {0, 9});
+            #endif
             break;
         default:
             break;
